@@ -4,7 +4,7 @@
 From Coq Require Import String Ascii List Bool Arith.
 From LV Require Import Base.Prelude Shape.Chain Shape.Spec Shape.Chain_proofs Shape.Shape_proofs
   Shape.Ebnf Shape.Ebnf_proofs Cfg.Grammar Forest.Sppf Forest.Prio Forest.ExplicitBuild
-  Shape.EarleyLeg Shape.EarleyLeg_proofs Shape.Cnf Shape.Cnf_proofs.
+  Shape.EarleyLeg Shape.EarleyLeg_proofs Shape.Cnf Shape.Cnf_proofs Shape.CykParse Shape.CykParse_proofs.
 Import ListNotations.
 Local Open Scope string_scope.
 
@@ -122,11 +122,97 @@ Definition C03_cnf_roundtrip_full_statement : Prop :=
        Forall (fun r => r_exp r <> []) rules ->
        cder g (cnf_of rules (ONode rid ch)) (CN (NOrig (r_origin (rule_n rules rid))))).
 
+(* cyk._parse (Shape/CykParse.v: the chart cell of a span computed from the cells of the shorter spans in
+   the loop order of _parse, first recorded tree per non-terminal kept - all weights equal).
+   Soundness, completeness and the unambiguous case of the chart, for ANY CNF-shaped grammar g. *)
+Theorem C03_cyk_chart_sound g w start t :
+  cyk_parse g w start = Some t -> cder g t (CN (NOrig start)) /\ cyield t = w.
+Proof. exact (cyk_parse_sound g w start t). Qed.
+Print Assumptions C03_cyk_chart_sound.
+
+Theorem C03_cyk_chart_complete g w start c :
+  (forall r, In r g -> cnf_shape r = true) ->
+  cder g c (CN (NOrig start)) -> cyield c = w -> exists t, cyk_parse g w start = Some t.
+Proof. exact (fun H => cyk_parse_complete g w start H c). Qed.
+Print Assumptions C03_cyk_chart_complete.
+
+Theorem C03_cyk_chart_unique g w start c :
+  (forall r, In r g -> cnf_shape r = true) ->
+  cder g c (CN (NOrig start)) -> cyield c = w ->
+  (forall c', cder g c' (CN (NOrig start)) -> cyield c' = w -> c' = c) ->
+  cyk_parse g w start = Some c.
+Proof. exact (fun H => cyk_parse_unique g w start H c). Qed.
+Print Assumptions C03_cyk_chart_unique.
+
+(* The link between the CNF grammar and the original one, i.e. the two halves of
+   C03_cnf_roundtrip_full_statement for one grammar g = to_cnf(G) (open at grammar level, checked on
+   every run: set equality of lark's CNF grammar with the model, pre-image equality of every parse) *)
+Definition cnf_link_sound (rules : list rrec) (g : list crule) : Prop :=
+  forall c n, cder g c (CN (NOrig n)) -> exists d, wf_otree rules d = true /\ c = cnf_of rules d.
+Definition cnf_link_complete (rules : list rrec) (g : list crule) : Prop :=
+  forall rid ch, wf_otree rules (ONode rid ch) = true ->
+    cder g (cnf_of rules (ONode rid ch)) (CN (NOrig (r_origin (rule_n rules rid)))).
+
+Definition oroot_is (rules : list rrec) (start : string) (d : otree) : Prop :=
+  match d with ONode rid _ => r_origin (rule_n rules rid) = start | OLeaf _ _ => False end.
+
+(* With the link, the whole CYK engine: what Lark(parser='cyk').parse returns is shape of a derivation of
+   the input from the start symbol; every sentence is accepted; a sentence with one derivation gets it. *)
+Theorem C03_cyk_returns_shape_of_derivation rules mp g w start c :
+  Forall (fun r => rule_wf r mp = true /\ inline_ok r = true) rules ->
+  cnf_link_sound rules g ->
+  cyk_parse g w start = Some c ->
+  exists d, wf_otree rules d = true /\ oroot_is rules start d /\ oyield d = w /\
+            cyk_result rules mp c = shape mp (o_dtree rules d).
+Proof.
+  intros Ht Hl Hp. destruct (cyk_parse_sound g w start c Hp) as [Hd Hy].
+  destruct (Hl _ _ Hd) as (d & Hwf & ->). exists d. split; [exact Hwf|]. split; [|split].
+  - destruct d as [ty v|rid ch]; [inversion Hd|]. unfold cnf_of in Hd.
+    destruct (cnf_parts rules (ONode rid ch)) as [[rhs kids] sk]. inversion Hd; subst. simpl. congruence.
+  - rewrite <- (cnf_roundtrip_yield rules d Hwf). exact Hy.
+  - exact (cyk_is_shape rules mp Ht d Hwf).
+Qed.
+Print Assumptions C03_cyk_returns_shape_of_derivation.
+
+Theorem C03_cyk_accepts_sentences rules g start rid ch :
+  (forall r, In r g -> cnf_shape r = true) -> cnf_link_complete rules g ->
+  wf_otree rules (ONode rid ch) = true -> r_origin (rule_n rules rid) = start ->
+  exists c, cyk_parse g (oyield (ONode rid ch)) start = Some c.
+Proof.
+  intros Hs Hl Hwf Ho. eapply (cyk_parse_complete g _ start Hs (cnf_of rules (ONode rid ch))).
+  - rewrite <- Ho. apply Hl. exact Hwf.
+  - apply cnf_roundtrip_yield. exact Hwf.
+Qed.
+Print Assumptions C03_cyk_accepts_sentences.
+
+Theorem C03_cyk_unambiguous rules mp g start d :
+  Forall (fun r => rule_wf r mp = true /\ inline_ok r = true) rules ->
+  (forall r, In r g -> cnf_shape r = true) -> cnf_link_sound rules g -> cnf_link_complete rules g ->
+  wf_otree rules d = true -> oroot_is rules start d ->
+  (forall d', wf_otree rules d' = true -> oroot_is rules start d' -> oyield d' = oyield d -> d' = d) ->
+  cyk_parse g (oyield d) start = Some (cnf_of rules d) /\
+  cyk_result rules mp (cnf_of rules d) = shape mp (o_dtree rules d).
+Proof.
+  intros Ht Hs Hls Hlc Hwf Hr Hu. split; [|exact (cyk_is_shape rules mp Ht d Hwf)].
+  destruct d as [ty v|rid ch]; [destruct Hr|]. simpl in Hr.
+  destruct (C03_cyk_accepts_sentences rules g start rid ch Hs Hlc Hwf Hr) as [c Hc].
+  destruct (C03_cyk_returns_shape_of_derivation rules mp g _ start c Ht Hls Hc) as (d' & Hw' & Hr' & Hy' & _).
+  destruct (cyk_parse_sound g _ start c Hc) as [Hd _]. destruct (Hls _ _ Hd) as (d2 & Hw2 & ->).
+  assert (d2 = ONode rid ch).
+  { apply Hu; auto.
+    - destruct d2 as [ty v|rid2 ch2]; [inversion Hd|]. unfold cnf_of in Hd.
+      destruct (cnf_parts rules (ONode rid2 ch2)) as [[rhs kids] sk]. inversion Hd; subst. simpl. congruence.
+    - rewrite <- (cnf_roundtrip_yield rules d2 Hw2). apply (cyk_parse_sound g _ start _ Hc). }
+  subst d2. exact Hc.
+Qed.
+Print Assumptions C03_cyk_unambiguous.
+
 (* engines agree: whatever derivation d of the input the engines follow, each returns shape(d):
    LALR's value-stack driver along d, CYK on the CNF pre-image of d, Earley's resolve-mode walk on a
    forest whose selected derivation is d.  With a unique derivation of the input these are the same
    d.  _partial: that LALR's table driver follows a derivation of the input is C02's driver
-   theorem; that CYK's chart parse is the pre-image is (1) above; that lark's SPPF is an unfolding of
+   theorem; for CYK the chart itself is proved (C03_cyk_chart_*, C03_cyk_unambiguous) and only the link
+   between to_cnf(G) and G (cnf_link_sound / cnf_link_complete, (1) above) stays open; that lark's SPPF is an unfolding of
    a forest of add_family-shaped families whose stored derivations are all derivations is C04
    layer A (C03_earley_resolve_is_shape_of_derivation composes it). *)
 Theorem C03_engines_agree_partial rules mp d s ts :
